@@ -919,8 +919,15 @@ func (u *Unit) mapLookup(v *HeapView, mt types.Type, ref, key Term) (val Value, 
 		return &StructV{Typ: vt, Fields: map[int]Value{0: Sc{Ite(present, raw, u.zeroTerm(srt)), ft}}}, present
 	}
 	if isStructType(vt) {
-		u.unsupported("map with struct values " + shortType(mt))
-		return u.freshValue(vt, "mv"), present
+		if mapComps(vt) == nil {
+			u.unsupported("map with struct values " + shortType(mt))
+			return u.freshValue(vt, "mv"), present
+		}
+		get := func(suffix, s string) Term {
+			raw := Select(Select(u.viewGet(v, mapValFam(mt)+suffix, ArrSort(SInt, ArrSort(ks, s))), ref), key)
+			return Ite(present, raw, u.zeroTerm(s))
+		}
+		return u.mapLoadStruct(vt, "", get), present
 	}
 	cs := comps(vt)
 	if cs == nil {
@@ -1020,7 +1027,17 @@ func (u *Unit) mapStore(st *State, mt types.Type, ref, key Term, val Value) {
 		}
 	}
 	if isStructType(vt) {
-		u.unsupported("map with struct values " + shortType(mt))
+		sv, ok := val.(*StructV)
+		if mapComps(vt) == nil || !ok {
+			u.unsupported("map with struct values " + shortType(mt))
+			return
+		}
+		putS := func(suffix, s string, t Term) {
+			fam := mapValFam(mt) + suffix
+			arr := u.heapGet(st, fam, ArrSort(SInt, ArrSort(ks, s)))
+			u.heapSet(st, fam, Store(arr, ref, Store(Select(arr, ref), key, u.coerce(t, s))))
+		}
+		u.mapStoreStruct(vt, "", sv, putS)
 		return
 	}
 	cs := comps(vt)
@@ -1344,4 +1361,46 @@ func sexprEnd(s string, i int) int {
 		}
 	}
 	return -1
+}
+
+// mapLoadStruct / mapStoreStruct: a struct-typed map value is kept as one value family per flattened leaf field.
+func (u *Unit) mapLoadStruct(t types.Type, prefix string, get func(suffix, sortv string) Term) *StructV {
+	st := t.Underlying().(*types.Struct)
+	sv := &StructV{Typ: t, Fields: map[int]Value{}}
+	for i := 0; i < st.NumFields(); i++ {
+		ft := st.Field(i).Type()
+		p := fmt.Sprintf("%s#%d", prefix, i)
+		switch {
+		case scalarSort(ft) != "":
+			sv.Fields[i] = Sc{get(p, scalarSort(ft)), ft}
+		case isSliceType(ft):
+			sv.Fields[i] = SliceV{get(p+"#arr", SInt), get(p+"#off", SInt), get(p+"#len", SInt), ft.Underlying().(*types.Slice).Elem()}
+		case isStructType(ft):
+			sv.Fields[i] = u.mapLoadStruct(ft, p, get)
+		}
+	}
+	return sv
+}
+
+func (u *Unit) mapStoreStruct(t types.Type, prefix string, sv *StructV, put func(suffix, sortv string, t Term)) {
+	st := t.Underlying().(*types.Struct)
+	for i := 0; i < st.NumFields(); i++ {
+		ft := st.Field(i).Type()
+		p := fmt.Sprintf("%s#%d", prefix, i)
+		fv := u.fieldOfStruct(sv, i)
+		switch {
+		case scalarSort(ft) != "":
+			put(p, scalarSort(ft), u.asSc(fv, ft).T)
+		case isSliceType(ft):
+			if sl, ok := fv.(SliceV); ok {
+				put(p+"#arr", SInt, sl.Arr)
+				put(p+"#off", SInt, sl.Off)
+				put(p+"#len", SInt, sl.Len)
+			}
+		case isStructType(ft):
+			if sub, ok := fv.(*StructV); ok {
+				u.mapStoreStruct(ft, p, sub, put)
+			}
+		}
+	}
 }
